@@ -53,7 +53,8 @@ MutateFieldG(ev, key, how, i, arg) ==
   /\ PlainFields(ev, key)
   /\ CASE how = "type" -> /\ ev.su[key].fields[i][2][1] = "prim" /\ arg \in KnownPrims
                           /\ PrimSize[arg] # PrimSize[ev.su[key].fields[i][2][2]]
-       [] how = "drop" -> Len(ev.su[key].fields) >= 2
+       \* (a dropped field must not be the text that declares another struct/union)
+       [] how = "drop" -> Len(ev.su[key].fields) >= 2 /\ SUsOf(ev.su[key].fields[i][2]) = {}
        [] how = "swap" -> i < Len(ev.su[key].fields)
        [] OTHER -> FALSE
 MutateFieldE(ev, key, how, i, arg) ==
